@@ -29,6 +29,9 @@ def gen(rng, tier, n_quick=60, n_thorough=1500):
     for i in range(4 if tier == "quick" else 40):
         # a strut pinned at both ends that carries no load of its own: with -w it has its weight to carry like every other bar
         cases.append(core.case_from_struct(G.gen_bracket(rng), Weight=(i % 4 != 3), Solve=True, Assemble=True, Error="1e-6", ViaPre=(i % 2 == 1)))
+    # trusses whose joint loads are written a hair inside a member (within the 1e-10 at which a position is taken for the member's end)
+    for k in range(2 if tier == "quick" else 10):
+        cases.append(core.case_from_struct(G.gen_truss(rng, hair=True), Weight=False, Solve=True, Assemble=True, Error="1e-5", ViaPre=(k % 2 == 1)))
     # a pin-jointed bar exactly along an axis between two supports that both hold that direction, pushed along its axis at both ends
     for k in range(2 if tier == "quick" else 8):
         cases.append(core.case_from_struct(G.gen_tie_between_supports(rng, k), Weight=False, Solve=True, Assemble=True, Error="1e-5", ViaPre=False))
